@@ -204,12 +204,20 @@ pub struct StubTransport {
     /// the connect attempt fails (after one Pending): the caller must get the error, and nothing may
     /// touch the finished connect future again
     fail: bool,
+    /// `poll_ready` answers Pending (with a wake-up) this many times before it is ready - a transport
+    /// that limits its dials or warms up, as `tower::Service` allows
+    not_ready: u8,
 }
 impl Service<http::request::Parts> for StubTransport {
     type Response = StubStream;
     type Error = StubErr;
     type Future = Pin<Box<dyn Future<Output = Result<StubStream, StubErr>> + Send>>;
-    fn poll_ready(&mut self, _: &mut Context<'_>) -> Poll<Result<(), StubErr>> {
+    fn poll_ready(&mut self, cx: &mut Context<'_>) -> Poll<Result<(), StubErr>> {
+        if self.not_ready > 0 {
+            self.not_ready -= 1;
+            cx.waker().wake_by_ref();
+            return Poll::Pending;
+        }
         Poll::Ready(Ok(()))
     }
     fn call(&mut self, _req: http::request::Parts) -> Self::Future {
@@ -226,12 +234,18 @@ impl Service<http::request::Parts> for StubTransport {
 }
 
 #[derive(Clone)]
-pub struct StubProtocol;
+pub struct StubProtocol(pub u8);
 impl Service<ProtocolRequest<StubStream, B>> for StubProtocol {
     type Response = StubConn;
     type Error = ConnectionError;
     type Future = std::future::Ready<Result<StubConn, ConnectionError>>;
-    fn poll_ready(&mut self, _: &mut Context<'_>) -> Poll<Result<(), ConnectionError>> {
+    fn poll_ready(&mut self, cx: &mut Context<'_>) -> Poll<Result<(), ConnectionError>> {
+        // not ready for a few polls, as the transport above
+        if self.0 > 0 {
+            self.0 -= 1;
+            cx.waker().wake_by_ref();
+            return Poll::Pending;
+        }
         Poll::Ready(Ok(()))
     }
     fn call(&mut self, req: ProtocolRequest<StubStream, B>) -> Self::Future {
@@ -567,7 +581,7 @@ impl Engine for ReqEngine {
                 .layer(Http1ChecksLayer::new())
                 .service(rec.clone());
             let mut svc: ConnectionPoolService<StubTransport, StubProtocol, _, B> =
-                ConnectionPoolService::new(StubTransport { alpn_h2: c.conn_h2, fail: c.body % 7 == 3 }, StubProtocol, inner, PoolConfig::default());
+                ConnectionPoolService::new(StubTransport { alpn_h2: c.conn_h2, fail: c.body % 7 == 3, not_ready: (c.body / 7) % 3 }, StubProtocol((c.body / 21) % 3), inner, PoolConfig::default());
             if !pooled {
                 svc = svc.without_pool();
             }
@@ -601,7 +615,7 @@ impl Engine for ReqEngine {
                 .layer(Http2ChecksLayer::new())
                 .layer(Http1ChecksLayer::new())
                 .service(rec.clone());
-            let mut svc = ConnectorService::new(inner, StubTransport { alpn_h2: c.conn_h2, fail: c.body % 7 == 3 }, StubProtocol);
+            let mut svc = ConnectorService::new(inner, StubTransport { alpn_h2: c.conn_h2, fail: c.body % 7 == 3, not_ready: (c.body / 7) % 3 }, StubProtocol((c.body / 21) % 3));
             let req = c.build().unwrap();
             let _ = std::panic::catch_unwind(std::panic::AssertUnwindSafe(|| rt.block_on(async { svc.ready().await?.call(req).await })));
             lib_panics(&mut rep, "connector-service", c);
